@@ -15,7 +15,8 @@ LEVEL = ("(Rates from 1e-2 down to 1e-10 per fs, tiny relative refinements of as
          "RateMatrix and on a dict model, comparing the full matrix after every step; the final matrix is "
          "propagated and compared with the matrix exponential (sum conservation, non-negativity, agreement within "
          "3x the exact truncation error), and get_PropagationMatrix on generated compatible sub-axes (step "
-         "multiples 1..5, shifted starts on and off the coarse grid) is compared with expm.")
+         "multiples 1..5, shifted starts on and off the coarse grid) is compared with expm."
+         " Later additions: constructor routes of the rate matrix (dimension, float zeros, integer zeros); refused assignment to a state that does not exist; a rate edited after the first propagation.")
 NOTE = ("dim <= 6, dt*||K||_1 <= 0.5 (the 'admissible' regime), axes with binary-fraction steps so that the "
         "library's exact float subset test is satisfiable; integer-lattice rates (reach degenerate/defective K).")
 RULE = ("history = dim 2..6, 1..14 set_rate ops (i,j,v>=0 on an integer lattice times a unit; i==j allowed -> must "
